@@ -18,6 +18,8 @@ mod error;
 mod features;
 mod io;
 mod server;
+#[cfg(feature = "verif")]
+mod verif_trace;
 
 #[derive(Parser)]
 struct Args {
